@@ -17,6 +17,7 @@ import (
 	"path/filepath"
 	"strings"
 	"sync"
+	"time"
 
 	"github.com/magisterquis/curlrevshell/lib/opshell"
 	"github.com/magisterquis/curlrevshell/verifx/ev"
@@ -33,6 +34,23 @@ type c09Case struct {
 }
 
 var c09SegsQuick = []string{"..", ".", "", "a", "sub", "%2e%2e", "%252e%252e", "..%2f", "\\", "%5c", "c", "OUTSIDE-canary.txt", "x", "index.html"}
+
+// c09SiblingTargets aims at the prefix-named siblings of tree through every
+// spelling of ".." that survives the mux.
+func c09SiblingTargets(tree string) []string {
+	var out []string
+	for _, dd := range []string{"..", "%2e%2e", ".%2e", "%2e.", "%2E%2E", "..%2f", "%2e%2e%2f"} {
+		for _, sib := range []string{tree + "-old/a", tree + ".bak", tree + "x/a", tree + "-old/", tree + "x"} {
+			sep := "/"
+			if strings.HasSuffix(dd, "%2f") {
+				sep = ""
+			}
+			out = append(out, "/"+dd+sep+sib, "/a/"+dd+"/"+dd+sep+sib, "//"+dd+sep+sib, "/sub/"+dd+"/"+dd+sep+sib)
+		}
+	}
+	return out
+}
+
 var c09SegsMore = []string{"%2E%2E", "%2f", "..\\", "%00", "i", "o", "io", "OUTSIDE-sibling", strings.Repeat("L", 4096)}
 
 // c09Targets enumerates the raw request targets.
@@ -89,6 +107,10 @@ func c09BuildTrees(base string) string {
 	for _, t := range []string{"flat", "nested", "shadow"} {
 		w(t+"/a", "IN:"+t+":a\n")
 		w(t+"/x", "IN:"+t+":x\n")
+		/* Siblings whose names begin with the tree's name. */
+		w(t+"-old/a", "CANARY:"+t+"-old\n")
+		w(t+".bak", "CANARY:"+t+".bak\n")
+		w(t+"x/a", "CANARY:"+t+"x\n")
 	}
 	w("nested/sub/a", "IN:nested:sub/a\n")
 	w("nested/sub/sub/a", "IN:nested:sub/sub/a\n")
@@ -246,7 +268,11 @@ func c09(r *ev.Result, tier string) {
 		w.WaitNotice(func(cl opshell.CLine) bool { return strings.Contains(cl.Line, "Shell is ready") })
 		var conn *hworld.Conn
 		local := map[string]int{}
-		for _, t := range targets[j.lo:j.hi] {
+		ts := targets[j.lo:j.hi]
+		if 0 == j.lo && strings.HasPrefix(j.cfg, "dir:") {
+			ts = append(append([]string{}, ts...), c09SiblingTargets(strings.TrimPrefix(j.cfg, "dir:"))...)
+		}
+		for _, t := range ts {
 			method := "GET"
 			if m, rest, ok := strings.Cut(t, " "); ok && !strings.HasPrefix(t, "/") {
 				method, t = m, rest
@@ -301,6 +327,10 @@ func c09(r *ev.Result, tier string) {
 		r.Distinct += j.hi - j.lo
 		mu.Unlock()
 	})
+	/* A stalled operator: file requests are reported, every one, even when
+	the operator's queue is full (the requests wait; none is served
+	unreported). */
+	c09Stalled(r, root)
 	r.Set("responses_by_config_and_status", statuses)
 	r.Set("targets", len(targets))
 	r.Sample(5, c09Case{Config: "dir:nested", Target: "//sub/%2e%2e/..%2f/OUTSIDE-canary.txt"})
@@ -308,6 +338,68 @@ func c09(r *ev.Result, tier string) {
 	r.Sample(5, c09Case{Config: "unset", Target: "https://x/a/../c?q"})
 	r.Assume("symbolic links inside the served tree are outside the statement's quantifier (http.Dir follows them by design)")
 	r.Assume("net/http answers malformed targets itself (400) and redirects unclean paths (301) before any handler runs; those responses are only checked for leaking content")
+}
+
+func c09Stalled(r *ev.Result, root string) {
+	const cap, n = 8, 40
+	w, err := hworld.Start(hworld.Config{FDir: filepath.Join(root, "flat"), OchCap: cap})
+	if nil != err {
+		ev.Broken("%s", err)
+	}
+	defer w.Stop()
+	w.Drain()
+	type result struct {
+		status int
+		body   string
+	}
+	results := make(chan result, n)
+	for i := 0; i < n; i++ {
+		go func(i int) {
+			c, err := w.Dial("")
+			if nil != err {
+				results <- result{-1, err.Error()}
+				return
+			}
+			defer c.Close()
+			res, err := c.Do(hworld.Get(fmt.Sprintf("/a?req=%d", i), w.Addr))
+			if nil != err {
+				results <- result{-1, err.Error()}
+				return
+			}
+			results <- result{res.Status, string(res.Body)}
+		}(i)
+	}
+	/* Nobody reads the operator channel for a moment; then it is read
+	slowly until every request has been answered. */
+	time.Sleep(300 * time.Millisecond)
+	reported, served := 0, 0
+	deadline := time.After(hworld.Watchdog)
+	for served < n {
+		select {
+		case res := <-results:
+			served++
+			if 200 != res.status || !strings.Contains(res.body, "IN:flat:a") {
+				r.Violate(ev.Violation{Signature: "stalled-operator/request-failed", What: fmt.Sprintf("a file request failed while the operator was slow: %d %q", res.status, trunc80(res.body)), Kind: "c09", Replay: c09Case{Config: "dir:flat", Target: "/a (stalled operator)"}})
+			}
+		case cl := <-w.Och:
+			if strings.Contains(cl.Line, "File requested: /a?req=") {
+				reported++
+			}
+		case <-deadline:
+			r.Violate(ev.Violation{Signature: "stalled-operator/hang", What: fmt.Sprintf("%d of %d requests answered, %d reported", served, n, reported), Kind: "c09", Replay: c09Case{Config: "dir:flat", Target: "/a (stalled operator)"}})
+			return
+		}
+	}
+	for _, cl := range w.Drain() {
+		if strings.Contains(cl.Line, "File requested: /a?req=") {
+			reported++
+		}
+	}
+	if reported != n {
+		r.Violate(ev.Violation{Signature: "stalled-operator/unreported", What: fmt.Sprintf("%d file requests were served while the operator's queue (capacity %d) was full, only %d were reported", n, cap, reported), Kind: "c09", Replay: c09Case{Config: "dir:flat", Target: "/a (stalled operator)"}})
+	}
+	r.Add(n)
+	r.AddDistinct(1)
 }
 
 func c09Replay(kind string, raw json.RawMessage) int {
